@@ -558,6 +558,10 @@ def run(ctx):
     rule_coordination_loop(ctx)
     rule_snapshot(ctx)
     rule_rejoin_revalidates(ctx)
+    from .common import rule_unsubscribe_leaves
+    rule_unsubscribe_leaves(ctx, "heartbeat-lifetime")
+    from .common import rule_timeouts_verbatim
+    rule_timeouts_verbatim(ctx, "heartbeat-lifetime", "aiokafka.consumer.consumer.AIOKafkaConsumer")
     from .common import rule_instance_state
     rule_instance_state(ctx, ("aiokafka.consumer.",))
     rep.nd("convergence / 'no further rebalance once quiet' (liveness over fault sequences)")
